@@ -216,4 +216,6 @@ def cases(tier):
                 cs.append(dict(name=f"repair.{method}.box{box}.K6", fn=h_repair, params=dict(method=method, box=list(box), K=6),
                                profile="fp", portfolio=True, fmod_K=6, oblig_timeout_s=600, separate=True, optional=True, cores=3, weight=10,
                                soft=["*"]))
+    from .selftest import cases as _selftest_cases
+    cs += _selftest_cases(tier)  # shim validation on constants (adversarial table), DESIGN 5.3
     return cs
